@@ -10,12 +10,20 @@
 (*   N2  exactly the changed paths are emitted once, with the new kind      *)
 (*   N4  every due top-most delete is emitted, nothing kept is deleted      *)
 (*   N6  a parent's change precedes its children's                          *)
+(*   N1fs applying them the way DiskWriter does - os.RemoveAll / rename on  *)
+(*        paths whose INTERMEDIATE components the OS resolves through       *)
+(*        symlinks - still yields the new tree: no delete is ever issued    *)
+(*        below a path that has just become a symlink (kind "l": a link to  *)
+(*        the sibling top-level name)                                       *)
 (* SepInRmdir = FALSE is the sanity variant (the register lacks the         *)
 (* trailing separator, so a stale "a-b" after a deleted directory "a"       *)
 (* is taken for one of its children): TLC must reject it.                   *)
+(* RmdirOnlyForFile = TRUE is a second sanity variant (the register is only *)
+(* armed when the replacement is a regular file): a directory replaced by a *)
+(* symlink then has its stale children deleted THROUGH the new link.        *)
 (***************************************************************************)
 EXTENDS Paths, TLC
-CONSTANT SepInRmdir
+CONSTANTS SepInRmdir, RmdirOnlyForFile
 
 NameA == <<97>>
 NameAB == <<97, 45, 98>>
@@ -23,8 +31,8 @@ Names == {NameA, NameAB}
 Top == {<<n>> : n \in Names}
 KidsOf(p) == {Append(p, n) : n \in Names}
 AllPaths == Top \cup UNION {KidsOf(p) : p \in Top}
-Trees == {t \in [AllPaths -> {"-", "f", "g", "d"}] :
-            \A p \in AllPaths : Len(p) = 2 => (t[p] # "-" => t[Parent(p)] = "d") /\ t[p] # "g"}
+Trees == {t \in [AllPaths -> {"-", "f", "g", "d", "l"}] :
+            \A p \in AllPaths : Len(p) = 2 => (t[p] # "-" => t[Parent(p)] = "d") /\ t[p] \notin {"g", "l"}}
 Dom(t) == {p \in AllPaths : t[p] # "-"}
 Rank(S, p) == Cardinality({q \in S : LessComponentwise(q, p)})
 ListOf(t) == LET S == Dom(t) IN
@@ -46,7 +54,7 @@ Merge(a, b, reg, out) ==
             Merge(Tail(a), b, r2, Append(out, [k |-> "del", p |-> a[1].path, t |-> "-"]))
   ELSE                                                                               \* Modify
        LET same == a[1].t = b[1].t
-           r2 == IF a[1].t = "d" /\ b[1].t # "d" THEN RmdirOf(a[1].path) ELSE <<>> IN
+           r2 == IF a[1].t = "d" /\ b[1].t # "d" /\ (RmdirOnlyForFile => b[1].t \in {"f", "g"}) THEN RmdirOf(a[1].path) ELSE <<>> IN
        IF same THEN Merge(Tail(a), Tail(b), r2, out)
        ELSE Merge(Tail(a), Tail(b), r2, Append(out, [k |-> "mod", p |-> b[1].path, t |-> b[1].t]))
 Alg(dst, src) == Merge(ListOf(dst), ListOf(src), <<>>, <<>>)
@@ -62,6 +70,21 @@ ApplyAllP(t, evs, i) ==
        IF e.k = "del" THEN ApplyAllP([q \in AllPaths |-> IF q = e.p \/ Under(q, e.p) THEN "-" ELSE t[q]], evs, i + 1)
        ELSE IF t[e.p] = "d" /\ e.t = "d" THEN ApplyAllP(t, evs, i + 1)
        ELSE ApplyAllP([q \in AllPaths |-> IF q = e.p THEN e.t ELSE IF Under(q, e.p) THEN "-" ELSE t[q]], evs, i + 1)
+\* the same application on a file system: a path below a top-level symlink names the entry below the
+\* link's target (the sibling top-level name) when that is a directory, and nothing otherwise
+Other(n) == IF n = NameA THEN NameAB ELSE NameA
+Actual(t, p) == IF Len(p) = 2 /\ t[<<p[1]>>] = "l"
+                THEN (IF t[<<Other(p[1])>>] = "d" THEN <<Other(p[1]), p[2]>> ELSE <<>>)
+                ELSE p
+RECURSIVE ApplyFS(_, _, _)
+ApplyFS(t, evs, i) ==
+  IF i > Len(evs) THEN t
+  ELSE LET e == evs[i]
+           p == Actual(t, e.p) IN
+       IF p = <<>> THEN ApplyFS(t, evs, i + 1)
+       ELSE IF e.k = "del" THEN ApplyFS([q \in AllPaths |-> IF q = p \/ Under(q, p) THEN "-" ELSE t[q]], evs, i + 1)
+       ELSE IF t[p] = "d" /\ e.t = "d" THEN ApplyFS(t, evs, i + 1)
+       ELSE ApplyFS([q \in AllPaths |-> IF q = p THEN e.t ELSE IF Under(q, p) THEN "-" ELSE t[q]], evs, i + 1)
 NonDel(evs) == {i \in DOMAIN evs : evs[i].k # "del"}
 Del(evs) == {i \in DOMAIN evs : evs[i].k = "del"}
 Swallowed(dst, src, p) == \E q \in ChangedP(dst, src) : Under(p, q) /\ dst[q] = "d" /\ src[q] # "d"
@@ -69,12 +92,13 @@ DueP(dst, src) == {p \in TopMostP(DeletedP(dst, src)) : ~Swallowed(dst, src, p)}
 
 VARIABLES dst, src, phase
 vars == <<dst, src, phase>>
-\* 144 initial states, the second tree is chosen in a step so that the TLC workers share the 20736 pairs
+\* 144 initial states, the second tree is chosen in a step so that the TLC workers share the pairs
 Init == dst \in Trees /\ src = dst /\ phase = 0
 Next == phase = 0 /\ phase' = 1 /\ dst' = dst /\ src' \in Trees
 Spec == Init /\ [][Next]_vars
 
 N1 == ApplyAllP(dst, Alg(dst, src), 1) = src
+N1fs == ApplyFS(dst, Alg(dst, src), 1) = src
 N2 == LET evs == Alg(dst, src) IN
       /\ {evs[i].p : i \in NonDel(evs)} = ChangedP(dst, src)
       /\ \A i, j \in NonDel(evs) : evs[i].p = evs[j].p => i = j
